@@ -575,4 +575,14 @@ def runBlocks (a : App) : List (List Tx) → Except Err (App × List (Nat × Lis
 /-- the uncrashed chain: fresh empty database, InitChain, blocks. -/
 def boot (cfg : Cfg) (genesis : List Step) : App := (App.fresh cfg []).initChain genesis
 
+/-- what a node does with a reopened application: InitChain again when nothing
+was committed (the handshake sees height 0), otherwise just continue. -/
+def resume (r : App) (g : List Step) : App := if r.lastVer = 0 then r.initChain g else r
+
+/-- what a state has COMMITTED: before the first commit that is nothing (the
+working tree already holds the staged consensus params, but they are not
+committed), afterwards the state's own observation. -/
+def App.committedObs (a : App) : Obs :=
+  if a.lastVer = 0 then (App.fresh a.cfg []).obs else a.obs
+
 end GnoVerif.C27
